@@ -137,9 +137,29 @@ package deb
 //@   ensures [C10] signer-error-is-wrapped: implies(ghostFlag("failed") && !isNilFunc(old(info.Deb.Signature.SignFn)), errIs(err, globErr("signerErr")))
 //@   modifies [C11 C12] flag("failed"), flag("signed"), flag("signerCalled"), glob("signedBytes"), glob("signerErr")
 //
+//@ import "crypto/md5"
+//@ import "crypto/sha1"
+//@ import "encoding/hex"
+//@ import "strconv"
+//
+//@ spec func validCompression(c string) bool {
+//@     return c == "" || c == "gzip" || c == "xz" || c == "zstd" || c == "none"
+//@ }
+//
+//@ spec func sigFileLine(name string, body []byte) string {
+//@     m := md5.Sum(body)
+//@     s := sha1.Sum(body)
+//@     return "\t" + hex.EncodeToString(m[:]) + " " + hex.EncodeToString(s[:]) + " " + strconv.Itoa(len(body)) + " " + name + "\n"
+//@ }
+//
+//@ spec func dpkgSigFiles(compression string, debianBinary, controlTarGz, dataTarball []byte) string {
+//@     return sigFileLine("debian-binary", debianBinary) + sigFileLine("control.tar.gz", controlTarGz) + sigFileLine(dataMemberName(compression), dataTarball)
+//@ }
+//
 //@ func dpkgSign(info *nfpm.Info, debianBinary, controlTarGz, dataTarball []byte) (sig []byte, sigType string, err error)
 //@   requires info != nil
 //@   requires !ghostFlag("failed")
+//@   ensures [C10] manifest-lists-the-stored-members: implies(err == nil && validCompression(info.Deb.Compression), strings.HasSuffix(globStr("signedBytes"), "Files:\n" + dpkgSigFiles(info.Deb.Compression, debianBinary, controlTarGz, dataTarball)))
 //@   ensures [C10] signature-type: sigType == dpkgSigType(old(info.Deb.Signature.Type))
 //@   ensures [C07] no-clock: implies(!old(info.MTime.IsZero()), ghostFlag("clockRead") == old(ghostFlag("clockRead")))
 //@   ensures [C10 C06] signer-failure-is-reported: implies(ghostFlag("failed"), err != nil)
